@@ -182,6 +182,11 @@ class ScanEval(FoldEval):
                     self.eval(v.value, env)
             return OpaqueVal('f-string')
 
+    def e_Constant(self, e, env):
+        if isinstance(e.value, (bytes, float, complex)) or e.value is Ellipsis:
+            return OpaqueVal('constant')
+        return super().e_Constant(e, env)
+
     def e_Dict(self, e, env):
         items = {}
         for k, v in zip(e.keys, e.values):
